@@ -511,7 +511,13 @@ async fn raw_case(c: RawCase) -> Result<(RecvLog, alloc::AllocStats, Vec<Vec<u8>
         good_msgs.push(m);
     }
     let max = c.codec_n as u128;
-    let junk = rng.bytes(300);
+    let mut junk = rng.bytes(300);
+    if c.codec_kind == 2 {
+        // UnsignedVarint(None): no configured limit, the receiver allocates what the prefix says.
+        // Junk that decodes to a length of 2^56 would only test the machine's allocator (the
+        // process aborts on allocation failure): keep every junk byte a complete varint <= 127.
+        junk.iter_mut().for_each(|b| *b &= 0x7f);
+    }
     match c.kind.as_str() {
         "len-max+1" => {
             raw.extend(uvarint(max + 1));
